@@ -15,7 +15,7 @@ Expected(r) == LET a == r.args IN
      [] r.cmd = "indexof" -> IF a[2] = <<>> THEN AnyR ELSE IndexOf(a[1], a[2]) [] r.cmd = "last_indexof" -> IF a[2] = <<>> THEN AnyR ELSE LastIndexOf(a[1], a[2])
      [] r.cmd = "contains" -> Contains(a[1], a[2]) [] r.cmd = "starts_with" -> StartsWith(a[1], a[2]) [] r.cmd = "ends_with" -> EndsWith(a[1], a[2])
      [] r.cmd = "equals" -> Equals(a[1], a[2]) [] r.cmd = "concat" -> Val(Concat(a))
-     [] r.cmd = "replace" -> IF a[2] = <<>> THEN AnyR ELSE Val(Replace(a[1], a[2], a[3]))
+     [] r.cmd = "replace" -> IF a[2] = <<>> THEN Val(Interleave(a[1], a[3])) ELSE Val(Replace(a[1], a[2], a[3]))
      [] r.cmd = "split" -> IF a[2] = <<>> THEN AnyR ELSE [k |-> "list", v |-> Split(a[1], a[2], <<>>)]
      [] r.cmd = "trim" -> Val(TrimR(TrimL(a[1]))) [] r.cmd = "trim_start" -> Val(TrimL(a[1])) [] r.cmd = "trim_end" -> Val(TrimR(a[1]))
      [] r.cmd = "uppercase" -> Val(Upper(a[1])) [] r.cmd = "lowercase" -> Val(Lower(a[1]))
